@@ -15,6 +15,7 @@ import KiraModel.Proofs.EffectsBLines
 import KiraModel.Proofs.EffectsBLinear
 import KiraModel.Proofs.EffectsBReverbLinear
 import KiraModel.Proofs.EffectsBReverbBound
+import KiraModel.Proofs.EffectsBDelayBound
 
 namespace K
 open Delay LineFx
@@ -124,6 +125,37 @@ theorem C13_delay_homogeneous (C : FxChain ℝ φ) (dt : ℝ) (info : Info ℝ)
     chain (its state — the previous output — adds and scales) -/
 example (g f dt : ℝ) (info : Info ℝ) :
     (ProbeFx.onePole g f).Linear dt info Frame.add (fun c p => p.scale c) := ProbeFx.onePole_linear g f dt info
+
+/-- **the delay is bounded for ever (loop gain below 1).**  Stagnant parameters with feedback amplitude
+    `a = 10^(dB/20)`; a good feedback chain that, on a set `Q` of its states, maps frames within `B` to frames
+    within `G·B` (`BoundedChain`; `G = 1` for no effects, `|g|` for a gain); line contents within `B`, inputs
+    within `X`, and `X + a·G·B ≤ B` (i.e. `B ≥ X / (1 − a·G)`, loop gain `a·G < 1`).  Then `process` never
+    faults, every output sample is within `a·G·B + X`, and the line stays within `B` and the effects in `Q` —
+    for inputs of any length, hence for arbitrarily many calls. -/
+theorem C13_delay_bounded (C : FxChain ℝ φ) (d : Delay ℝ φ) (xs : List (Frame ℝ)) (dt : ℝ) (info : Info ℝ)
+    (hC : C.Good dt info) (hfb : d.feedback.stagnant = true) (hmx : d.mix.stagnant = true)
+    (hL : 1 ≤ d.buffer.length) (ht : min d.buffer.length xs.length ≤ d.tempLen)
+    (Q : φ → Prop) (G B X : ℝ) (hQ : BoundedChain C dt info Q G B) (hX : 0 ≤ X) (hG : 0 ≤ G) (hB0 : 0 ≤ B)
+    (hB : X + asAmplitude d.feedback.raw * (G * B) ≤ B) (hfx : Q d.fx)
+    (hbuf : ∀ b ∈ d.buffer, Frame.Within b B) (hx : ∀ x ∈ xs, Frame.Within x X) :
+    ∃ d' out, d.process C xs dt info = .ok (d', out)
+      ∧ (∀ y ∈ out, Frame.Within y (asAmplitude d.feedback.raw * (G * B) + X))
+      ∧ (∀ b ∈ d'.buffer, Frame.Within b B) ∧ Q d'.fx
+      ∧ d'.feedback.stagnant = true ∧ d'.mix.stagnant = true ∧ d'.feedback.raw = d.feedback.raw
+      ∧ d'.buffer.length = d.buffer.length ∧ d'.tempLen = d.tempLen := by
+  have hp := process_settled C d xs dt info hC hfb hmx hL ht
+  have hm := clamp_mem d.mix.raw 0 1 (by norm_num)
+  obtain ⟨a, b, c⟩ := framesC_bounded C (asAmplitude d.feedback.raw) (clamp d.mix.raw 0 1) dt info hC Q G B X hQ
+    (asAmplitude_nonneg _) hm.1 hm.2 hX hG hB0 hB xs d.buffer d.fx hL hfx hbuf hx
+  exact ⟨_, _, hp, c, a, b, hfb, hmx, rfl, framesC_buf_length C _ _ dt info hC (d.buffer, d.fx) xs hL, rfl⟩
+
+/-- non-vacuity: with no feedback effects (the empty probe chain) frames within `B` stay within `1·B` -/
+example (dt : ℝ) (info : Info ℝ) (B : ℝ) :
+    BoundedChain (ProbeFx.chain : FxChain ℝ _) dt info (fun s => s = []) 1 B := by
+  intro s xs hs hx
+  subst hs
+  simp only [ProbeFx.chain, ProbeFx.chainProcess, one_mul]
+  exact ⟨trivial, hx⟩
 
 /-! ### non-vacuity (delay): the probe effects nested by the correspondence suite form a good, silent chain,
     and a freshly initialised one-second delay at 48 kHz meets the hypotheses above -/
